@@ -43,40 +43,49 @@ ASSUMPTIONS = [
     "a template probes only names it does not itself assign anywhere (its own scoping is C03's subject)",
     "globals are not changed between the first render and the last (a cached default module is never stale)",
     "macros are defined at top level (root or inside a top-level if), call blocks target macros that use caller",
+    "blocks appear in templates that extend nothing (inheritance is C04's subject), outside macros, not nested",
 ]
 CLAIM = dict(
     category="proof",
     technique="Lean 4 proof over a transcription of context creation for include/import, of the exported_vars bookkeeping "
               "and of template selection, against a specification written from the docs + unit, generated-code and "
               "end-to-end correspondence on generated template sets whose targets print what they see",
-    text="Theorems (Props/C05.lean), for all contexts, locals, globals and flags: an include/import `with context` gives the "
-         "target exactly the current local variables over the current context, locals winning, `missing` locals skipped "
-         "(include_ctx_with, import_ctx_with, get_all_is_resolve); `without context` gives an include exactly the target's "
-         "own globals, independent of everything in the including template (include_ctx_without); a default import sees "
-         "exactly the imported template's globals then the importing template's globals, independent of render variables "
-         "and locals, PROVIDED no value in the importing context's parent shadows one of the importing template's global "
-         "keys (import_ctx_default, import_ctx_default_root with the explicit no-shadowing hypothesis; the unconditional "
-         "statement ImportDefaultStatement is refuted in Findings/F16.lean — known finding F16 — and the KeyError branch is "
-         "characterised by import_default_keyerror_iff); default imports are served from the cached module iff the importing "
-         "context has no extra global keys (import_cached_iff); a module's attributes are exactly the public names whose "
-         "current top-level binding is a set/block-set/macro, for every order of assignments and imports (module_exports); "
-         "ignore missing skips the statement iff every named template is missing and changes nothing else "
-         "(ignore_missing_only_missing, ignore_missing_keeps_errors); a list selects the first entry that exists "
-         "(select_first_existing). Tie: real new_context/get_all/get_exported/_get_default_module/select_template against "
-         "the primitives; the emitted include/import calls and dump_local_context keys of every generated template against "
-         "the model; rendered output (render, generate, render_async, generate_async, make_module(_async), .module) of an "
-         "exhaustive small scope (statement kind x context flag x where the local is defined x shadowing pattern) and of "
-         "random template sets (loops, macros, with, call blocks, nested imports, aliases, name lists, missing and broken "
-         "templates, Template objects as data) against the interpreter's text.",
-    note="Trusted: Lean kernel; hand models (tied by correspondence only); the spec's reading of 'globals'. Known finding F16: "
-         "a default import reads the importing template's global keys from context.parent, so a render variable (or an "
-         "inherited local) of the same name is seen by the imported module, and a KeyError is raised when the key is absent "
-         "from a shared parent.",
+    text="Theorems (Props/C05.lean), for all contexts, locals, globals, flags and value types: `with context` (include and "
+         "import alike) never fails and gives the target exactly the current local variables over the current context, a "
+         "non-missing local winning, a `missing` one skipped (with_context_sees, get_all_is_resolve), where the locals dict "
+         "gives every name its innermost declaration among the enclosing scopes (locals_are_innermost); an include sees that, "
+         "or without context exactly the target's own globals, independent of everything in the including template "
+         "(include_ctx, include_without_independent); a default import sees exactly the imported template's globals then the "
+         "importing template's globals, independent of render variables, context variables and locals, PROVIDED the context "
+         "is the importing template's own (GlobalsKeysOf) and no value in its parent shadows one of that template's global "
+         "keys (import_ctx; import_ctx_default_root states the hypothesis for a top-level render: no render variable is named "
+         "like such a key). The unconditional statement ImportStatement is refuted in Findings/F16.lean (known finding F16, "
+         "three faces); the KeyError branch is characterised exactly (import_default_keyerror_iff). Whatever is served from "
+         "the cached default module was rendered with a context that depends on no importer (cached_module_is_context_free, "
+         "uncached_import_has_extra). A module's attributes are exactly the public names whose current top-level binding is a "
+         "set / block set / macro, with that value, for every order of assignments and imports (module_exports). ignore missing "
+         "skips the statement iff nothing named exists and changes nothing else (ignore_missing_only_missing, "
+         "ignore_missing_keeps_everything_else); a list selects the first entry that exists (select_first_existing). Tie: real "
+         "new_context / get_all / get_exported / _get_default_module(_async) / include resolution against the primitives; the "
+         "calls emitted for every include/import of every generated template and the keys of their dump_local_context dict "
+         "against the model; output of render, generate, render_async, generate_async, make_module(_async), .module for an "
+         "exhaustive small scope (statement kind x context flag x ignore missing x 21 places where the local is defined x "
+         "shadowing pattern; every sequence of <=3 top-level binding events of a module) and random acyclic template sets "
+         "(loops, macros, with, call blocks, blocks incl. scoped, nested imports, aliases colliding with assignments, name "
+         "lists, missing / broken / undefined targets, Template objects as data) against the interpreter's text under the "
+         "transcription; a difference is decided by the interpreter's text under the documentation.",
+    note="Trusted: Lean kernel; hand models incl. the reference interpreter (tied by correspondence only); the spec's reading "
+         "of 'globals' and of precedence. Known finding F16 (reproduced on the real code, 3 keys): a default import reads the "
+         "importing template's global keys from context.parent, so (1) a render variable / inherited value of the same name is "
+         "seen by a module imported WITHOUT context, (2) KeyError when the key is absent from a shared parent (template with "
+         "own globals included with context), (3) inside a scoped block the derived context has no globals_keys and the "
+         "module sees none of the importer's globals.",
     design_ref="§5 C05",
 )
 
 F16_KEY = "C05:import-without-context:render-var-shadows-template-global"
 F16B_KEY = "C05:import-without-context:template-global-key-missing-in-parent:KeyError"
+F16C_KEY = "C05:import-without-context:scoped-block-loses-template-globals"
 
 MISSING = "~"
 POOL = ["eg", "tg", "tt", "rv", "ts", "ti", "lv", "mp", "wv", "cp", "_pv", "un", "sh"]
@@ -152,6 +161,8 @@ def stmt_src(s):
         return "{{ %s }}" % s[1]
     if k == "nameprobe":
         return "(" + "".join(" %s={{ %s|default('%s') }}" % (n, n, MISSING) for n in s[1]) + ")"
+    if k == "block":
+        return "{%% block %s%s %%}%s{%% endblock %%}" % (s[1], " scoped" if s[2] else "", src_of(s[3]))
     raise ValueError(k)
 
 
@@ -197,6 +208,8 @@ def stmt_sx(s):
         return [Atom("modprint"), s[1]]
     if k == "nameprobe":
         return [Atom("nameprobe"), list(s[1])]
+    if k == "block":
+        return [Atom("block"), s[1], bool(s[2]), body_sx(s[3])]
     raise ValueError(k)
 
 
@@ -211,6 +224,8 @@ def stores_of(body):
             out |= stores_of(s[2])
         elif k in ("for", "with"):
             out.add(s[1])
+            out |= stores_of(s[3])
+        elif k == "block":
             out |= stores_of(s[3])
         elif k == "macro":
             out.add(s[1])
@@ -233,7 +248,7 @@ def fill_probes(body, names):
             out.append(("probe", s[1], list(names)))
         elif k == "if":
             out.append(("if", s[1], fill_probes(s[2], names)))
-        elif k in ("for", "with"):
+        elif k in ("for", "with", "block"):
             out.append((k, s[1], s[2], fill_probes(s[3], names)))
         elif k == "macro":
             out.append(("macro", s[1], s[2], fill_probes(s[3], names)))
@@ -371,7 +386,7 @@ LEAF = [("probe", "b", None), ("macro", "show", [], [("probe", "m", None)])]
 
 WHERE = ["none", "root-set", "root-blockset", "if-taken", "if-untaken", "set-after", "loop-var", "loop-set", "macro-param",
          "macro-param-unset", "macro-set", "macro-outer-set", "with-var", "with-set", "call-param", "loop-shadows-set",
-         "if-in-loop"]
+         "if-in-loop", "block-after-root-set", "block-set", "scoped-block-in-loop", "scoped-block-after-root-set"]
 SHADOW_LAYERS = ["envg", "tplg-main", "tplg-leaf", "render"]
 
 
@@ -421,6 +436,14 @@ def place(where, stmts):
         return [("set", x, "S", False), ("for", x, ["L1"], stmts)] + stmts
     if where == "if-in-loop":
         return [("for", "i", ["1", "2"], [("if", True, [("set", x, "IL", False)])] + stmts)]
+    if where == "block-after-root-set":     # only context.get_all() carries x into the block function
+        return [("set", x, "S", False), ("block", "b1", False, stmts)]
+    if where == "block-set":
+        return [("block", "b1", False, [("set", x, "BS", False)] + stmts)]
+    if where == "scoped-block-in-loop":
+        return [("for", x, ["L1", "L2"], [("block", "b1", True, stmts)])]
+    if where == "scoped-block-after-root-set":
+        return [("set", x, "S", False), ("block", "b1", True, stmts)]
     raise ValueError(where)
 
 
@@ -430,7 +453,7 @@ def small_scope(ctx):
     flags = [(True, False), (True, True), (False, True), (False, False)]   # (with_ctx, written explicitly)
     patterns = [c for r in range(len(SHADOW_LAYERS) + 1) for c in itertools.combinations(SHADOW_LAYERS, r)]
     if ctx.quick:
-        patterns = [p for i, p in enumerate(patterns) if i in (0, 2, 4, 9, 10, 15)]
+        patterns = [p for i, p in enumerate(patterns) if i in (0, 2, 4, 9, 15)]
     pool = ["x", "y", "u"]
     for kind in kinds:
         for with_ctx, explicit in flags:
@@ -452,6 +475,48 @@ def small_scope(ctx):
                         yield ("small", (kind, with_ctx, explicit, ignore, where, pat)), w
 
 
+EXPORT_EVENTS = ["set-x", "set-_y", "blockset-x", "macro-x", "import-x", "from-x", "from-_y", "if-taken-set-x",
+                 "if-untaken-set-x", "if-taken-import-x", "loop-set-x", "with-set-x", "loop-import-x", "with-from-x"]
+
+
+def export_event(ev, i):
+    v = f"S{i}"
+    return {
+        "set-x": [("set", "x", v, False)],
+        "set-_y": [("set", "_y", v, False)],
+        "blockset-x": [("set", "x", v, True)],
+        "macro-x": [("macro", "x", [], [("text", "M")])],
+        "import-x": [("import", ("lit", "leaf"), "x", False, False)],
+        "from-x": [("from", ("lit", "leaf"), [("show", "x")], False, False)],
+        "from-_y": [("from", ("lit", "leaf"), [("show", "_y")], False, False)],
+        "if-taken-set-x": [("if", True, [("set", "x", v, False)])],
+        "if-untaken-set-x": [("if", False, [("set", "x", v, False)])],
+        "if-taken-import-x": [("if", True, [("import", ("lit", "leaf"), "x", True, True)])],
+        "loop-set-x": [("for", "i", ["1"], [("set", "x", v, False)])],
+        "with-set-x": [("with", "w", "0", [("set", "x", v, False)])],
+        "loop-import-x": [("for", "i", ["1"], [("import", ("lit", "leaf"), "x", False, False)])],
+        "with-from-x": [("with", "w", "0", [("from", ("lit", "leaf"), [("show", "x")], False, False)])],
+    }[ev]
+
+
+def export_scope(ctx, rng):
+    """every sequence of top-level binding events of a module (exhaustive up to length 2 / 3), observed through
+    import + attribute probes, from-import, and the Python API (make_module / module) on the module itself"""
+    seqs = [c for r in range(0, 3) for c in itertools.product(EXPORT_EVENTS, repeat=r)]
+    triples = list(itertools.product(EXPORT_EVENTS, repeat=3))
+    seqs += rng.sample(triples, 80) if ctx.quick else triples
+    leaf = [("macro", "show", [], [("text", "L")]), ("set", "v", "LV", False)]
+    main = [("import", ("lit", "lib"), "m", False, False), ("modprobe", "m", ["x", "_y", "i", "w"]),
+            ("from", ("lit", "lib"), [("x", "fx")], False, False), ("nameprobe", ["fx"]),
+            ("import", ("lit", "lib"), "n", True, True), ("modprobe", "n", ["x", "_y"])]
+    for seq in seqs:
+        lib = [st for i, ev in enumerate(seq) for st in export_event(ev, i)]
+        for entry in ("main", "lib"):
+            w = World({}, [dict(name="main", ok=True, tplg={}, body=list(main)), dict(name="lib", ok=True, tplg={}, body=lib),
+                           dict(name="leaf", ok=True, tplg={}, body=list(leaf))], {}, entry=entry)
+            yield ("exports", (entry,) + tuple(seq)), w
+
+
 class TplGen:
     """random body for template number `idx`; may include / import only templates with a larger number (acyclic)"""
 
@@ -460,6 +525,7 @@ class TplGen:
         self.counter = 0
         self.macros = []        # (name, nparams, uses_caller) defined so far at top level
         self.own_macro_names = set()
+        self.nblocks = 0
 
     def val(self, tag):
         self.counter += 1
@@ -510,6 +576,8 @@ class TplGen:
             choices += ["include"] * 9 + ["import"] * 5 + ["from"] * 4
         if depth < 3:
             choices += ["if"] * 3 + ["for"] * 3 + ["with"] * 3
+            if scope.get("blocks_ok", True) and self.nblocks < 3:
+                choices += ["block"] * 3
         if top and depth == 0 or (top and scope.get("in_if")):
             choices += ["macro"] * 4
         if scope["macros"]:
@@ -522,7 +590,17 @@ class TplGen:
             choices += ["caller"] * 3
         k = rng.choice(choices)
         if k == "set":
-            return [("set", self.name(), self.val("S"), rng.random() < 0.2)]
+            x = self.name()
+            self.unbind(scope, x)
+            return [("set", x, self.val("S"), rng.random() < 0.2)]
+        if k == "block":
+            self.nblocks += 1
+            sc = self.inner(scope)
+            sc["blocks_ok"] = False
+            # a block function sees the context only: names bound at top level so far
+            sc["aliases"] = list(scope["root_aliases"])
+            sc["fromnames"] = list(scope["root_fromnames"])
+            return [("block", f"b{self.idx}{self.nblocks}", rng.random() < 0.5, self.body(3, depth + 1, sc, world_vars))]
         if k == "probe":
             return [("probe", f"p{self.idx}", None)]
         if k == "if":
@@ -535,10 +613,14 @@ class TplGen:
         if k == "for":
             sc = self.inner(scope)
             vals = [self.val("L") for _ in range(rng.choice([0, 1, 1, 2]))]
-            return [("for", self.name(), vals, self.body(3, depth + 1, sc, world_vars))]
+            x = self.name()
+            self.unbind(sc, x)
+            return [("for", x, vals, self.body(3, depth + 1, sc, world_vars))]
         if k == "with":
             sc = self.inner(scope)
-            return [("with", self.name(), self.val("W"), self.body(3, depth + 1, sc, world_vars))]
+            x = self.name()
+            self.unbind(sc, x)
+            return [("with", x, self.val("W"), self.body(3, depth + 1, sc, world_vars))]
         if k == "macro":
             free = [m for m in MACROS if m not in self.own_macro_names]
             if not free:
@@ -553,9 +635,12 @@ class TplGen:
             uses_caller = rng.random() < 0.3
             sc = self.inner(scope)
             sc["caller"] = uses_caller
+            sc["blocks_ok"] = False
             # a macro body sees only the root frame's names: aliases / macros defined at top level so far
             sc["aliases"] = list(scope["root_aliases"])
             sc["fromnames"] = list(scope["root_fromnames"])
+            for p in params:
+                self.unbind(sc, p[0])
             body = self.body(3, depth + 1, sc, world_vars)
             if uses_caller and not any(s[0] == "caller" for s in body):
                 body.append(("caller", self.val("C")))
@@ -567,7 +652,10 @@ class TplGen:
             if uses_caller:
                 sc = self.inner(scope)
                 sc["caller"] = False
-                return [("callblock", self.name(), ("name", m), args, self.body(2, depth + 1, sc, world_vars))]
+                sc["blocks_ok"] = False
+                x = self.name()
+                self.unbind(sc, x)
+                return [("callblock", x, ("name", m), args, self.body(2, depth + 1, sc, world_vars))]
             return [("call", ("name", m), args)]
         if k == "caller":
             return [("caller", self.val("C"))]
@@ -583,7 +671,8 @@ class TplGen:
         if k == "import":
             with_ctx, explicit = self.flags(False)
             t = self.target(rng.random() < 0.1)
-            alias = rng.choice(ALIASES)
+            alias = rng.choice(ALIASES + ALIASES + EXTRA)      # sometimes a name that is also assigned with set
+            self.unbind(scope, alias)
             self.bind_alias(scope, alias, self.target_name(t, world_vars))
             out = [("import", t, alias, with_ctx, explicit)]
             if rng.random() < 0.6:
@@ -600,9 +689,10 @@ class TplGen:
             for c in rng.sample(cands, min(len(cands), rng.choice([1, 1, 2, 3]))):
                 if c in [n for n, _ in names]:
                     continue
-                alias = c if rng.random() < 0.5 else rng.choice(["f1", "f2", "_f3"])
+                alias = c if rng.random() < 0.5 else rng.choice(["f1", "f2", "_f3", "f1", "f2", "_f3"] + EXTRA)
                 if alias in [a for _, a in names]:
                     continue
+                self.unbind(scope, alias)
                 names.append((c, alias))
                 macro = next((m for m in inf["macros"] if m[0] == c), None)
                 self.bind_from(scope, alias, macro)
@@ -619,6 +709,14 @@ class TplGen:
     def inner(self, scope):
         return dict(scope, top=False, in_if=False, macros=list(scope["macros"]), aliases=list(scope["aliases"]),
                     fromnames=list(scope["fromnames"]))
+
+    def unbind(self, scope, name):
+        """the name is rebound to something else: forget what the generator knew about it"""
+        scope["aliases"] = [a for a in scope["aliases"] if a[0] != name]
+        scope["fromnames"] = [a for a in scope["fromnames"] if a[0] != name]
+        if scope["top"]:
+            scope["root_aliases"][:] = [a for a in scope["root_aliases"] if a[0] != name]
+            scope["root_fromnames"][:] = [a for a in scope["root_fromnames"] if a[0] != name]
 
     def bind_alias(self, scope, alias, tn):
         scope["aliases"] = [a for a in scope["aliases"] if a[0] != alias] + [(alias, tn)]
@@ -645,7 +743,10 @@ class TplGen:
             m = rng.choice(withc)
             sc = self.inner(scope)
             sc["caller"] = False
-            return [("callblock", self.name(), ("attr", alias, m[0]), [self.val("A") for _ in range(rng.randint(0, len(m[1])))],
+            sc["blocks_ok"] = False
+            x = self.name()
+            self.unbind(sc, x)
+            return [("callblock", x, ("attr", alias, m[0]), [self.val("A") for _ in range(rng.randint(0, len(m[1])))],
                      self.body(2, 3, sc, {}))]
         if plain and rng.random() < 0.97:
             m = rng.choice(plain)
@@ -669,7 +770,7 @@ def cost_of(body, tcost, mcost, maxm):
             c += 1 + cost_of(s[2], tcost, mcost, maxm)
         elif k == "for":
             c += 1 + max(1, len(s[2])) * cost_of(s[3], tcost, mcost, maxm)
-        elif k == "with":
+        elif k in ("with", "block"):
             c += 1 + cost_of(s[3], tcost, mcost, maxm)
         elif k == "macro":
             mcost[s[1]] = 1 + cost_of(s[3], tcost, mcost, maxm)
@@ -895,6 +996,8 @@ def key_for(tag, world_case, flavour):
     if tag[0] == "small":
         kind, with_ctx, explicit, ignore, where, pat = tag[1]
         return f"C05:{kind}:{'with' if with_ctx else 'without'}-context:{where}"
+    if tag[0] == "exports":
+        return f"C05:module-exports:{flavour}"
     return f"C05:random:{flavour}"
 
 
@@ -947,9 +1050,10 @@ def run(ctx, res):
     unit_counts = run_unit(ctx, res, jinja2)
 
     cases = list(small_scope(ctx))
+    cases += list(export_scope(ctx, ctx.rng("exports")))
     n_small = len(cases)
     rng = ctx.rng("random")
-    for i in range(ctx.pick(200, 4000)):
+    for i in range(ctx.pick(160, 4000)):
         cases.append((("random", i), random_world(rng, rng.choice([1, 2, 2, 3, 4]))))
     all_flavours = ["render", "generate", "render_async", "generate_async", "make_module", "make_module_async", "module"]
     reqs, index = [], []
@@ -960,7 +1064,10 @@ def run(ctx, res):
     distinct, sizes, kinds = set(), {}, {}
     for ci, (tag, w) in enumerate(cases):
         by_mode = {m: replies[3 * ci + j] for j, m in enumerate(("render", "module-vars", "module"))}
-        if tag[0] == "small" and ctx.quick:     # one environment per small-scope case in the quick tier
+        if tag[0] == "exports":
+            flavours = ["make_module", "module", "make_module_async"] if w.entry == "lib" else \
+                (["render", "render_async"] if not ctx.quick else [["render"], ["render_async"]][ci % 2])
+        elif tag[0] == "small" and ctx.quick:     # one environment per small-scope case in the quick tier
             flavours = [["render", "make_module"], ["render_async"], ["generate", "module"], ["generate_async", "make_module_async"]][ci % 4]
         else:
             flavours = all_flavours
@@ -977,13 +1084,16 @@ def run(ctx, res):
         "evaluations": stats["evaluations"],
         "distinct_nontrivial": len(distinct),
         "rule": ("small scope (exhaustive): statement kind (include / include of a list / import-as / from-import) x context flag "
-                 "(default, explicit with, explicit without) x ignore missing x where the local is defined (17 places: root set, "
+                 "(default, explicit with, explicit without) x ignore missing x where the local is defined (21 places: root set, "
                  "block set, taken/untaken if, set after the statement, loop variable, set in a loop, macro parameter given / not "
                  "given, set in a macro, set after the macro definition, with variable, set in a with, call-block parameter, loop "
-                 "variable shadowing a set, if inside a loop) x which of env globals / main's template globals / the target's "
-                 "template globals / render variables also bind the name; random: acyclic template sets of 2-6 templates with "
-                 "nested statements; every template prints probes for the names it does not assign; a case is non-trivial when "
-                 "its set of template sources + bound layers is new"),
+                 "variable shadowing a set, if inside a loop, unscoped / scoped block after a root set, set in a block, scoped "
+                 "block in a loop) x which of env globals / main's template globals / the target's template globals / render "
+                 "variables also bind the name (all 16 subsets thorough, 5 quick); module exports: every sequence of <=2 (quick, "
+                 "+80 of length 3) / <=3 (thorough) events out of 14 top-level binding events, seen through import, from-import "
+                 "and make_module/module; random: acyclic template sets of 2-6 templates with nested statements; every template "
+                 "prints probes for the names it does not assign; a case is non-trivial when its set of template sources + bound "
+                 "layers is new"),
         "exhaustive_small_scope": n_small,
         "random_sets": len(cases) - n_small,
         "samples": [cases[7][1].describe(), cases[-1][1].describe()],
@@ -1006,7 +1116,7 @@ def count_kinds(body, kinds):
         for sub in s[1:]:
             if isinstance(sub, list) and sub and isinstance(sub[0], tuple) and isinstance(sub[0][0], str) and \
                     sub[0][0] in ("text", "probe", "set", "if", "for", "with", "macro", "call", "callblock", "caller", "include",
-                                  "import", "from", "modprobe", "modprint", "nameprobe"):
+                                  "import", "from", "modprobe", "modprint", "nameprobe", "block"):
                 count_kinds(sub, kinds)
 
 
@@ -1041,28 +1151,39 @@ def emitted_calls(jinja2, src, is_async):
     return out
 
 
-def expected_calls(body, is_async, frames=None):
-    """the calls the transcription (Model/CtxFlow.targetCtx) stands for, in source order; locals keys are left to the
-    Lean side (request c05-locals)"""
-    out = []
-    for s in body:
-        k = s[0]
-        if k == "include":
-            if s[3]:
-                out.append(("include", "new_context", ["context.get_all()", "True", "LOCALS"]))
-            else:
-                out.append(("include", "_get_default_module" + ("_async" if is_async else ""), []))
-        elif k in ("import", "from"):
-            if s[3]:
-                out.append(("import", "make_module" + ("_async" if is_async else ""), ["context.get_all()", "True", "LOCALS"]))
-            else:
-                out.append(("import", "_get_default_module" + ("_async" if is_async else ""), ["context"]))
-        elif k == "if":
-            out += expected_calls(s[2], is_async)
-        elif k in ("for", "with", "macro"):
-            out += expected_calls(s[3], is_async)
-        elif k == "callblock":
-            out += expected_calls(s[4], is_async)
+def expected_calls(body, is_async):
+    """the calls the transcription (Model/CtxFlow.targetCtx) stands for, in the order of the generated module (the root
+    function, then one function per block); locals keys come from the Lean side (request c05-locals)"""
+    blocks = []
+
+    def walk(body):
+        out = []
+        for s in body:
+            k = s[0]
+            if k == "include":
+                if s[3]:
+                    out.append(("include", "new_context", ["context.get_all()", "True", "LOCALS"]))
+                else:
+                    out.append(("include", "_get_default_module" + ("_async" if is_async else ""), []))
+            elif k in ("import", "from"):
+                if s[3]:
+                    out.append(("import", "make_module" + ("_async" if is_async else ""), ["context.get_all()", "True", "LOCALS"]))
+                else:
+                    out.append(("import", "_get_default_module" + ("_async" if is_async else ""), ["context"]))
+            elif k == "if":
+                out += walk(s[2])
+            elif k in ("for", "with", "macro"):
+                out += walk(s[3])
+            elif k == "callblock":
+                out += walk(s[4])
+            elif k == "block":
+                blocks.append(s[3])
+        return out
+    out = walk(body)
+    i = 0
+    while i < len(blocks):      # blocks do not nest in generated sets, but keep the order of discovery anyway
+        out += walk(blocks[i])
+        i += 1
     return out
 
 
